@@ -356,6 +356,55 @@ def rule_f(ctx):
     ctx.floor(R, 3)
 
 
+def rule_g(ctx):
+    R = "C16.g"
+    ctx.rule(R, "update_params sets each coefficient from its own argument: for every parameter p of an update_params method that is stored as "
+             "self.p, the store happens whenever p is given -- the statement is `self.p = p if p is not None else self.p`, or an "
+             "assignment whose enclosing tests mention p only; overrides forward every parameter in the same position")
+    m = ctx.model
+    SOLV = "darsia.utils.linear_solvers.solver"
+    ctx.consult(SOLV)
+    n = 0
+    for mn, mod in m.modules.items():
+        if not mn.startswith("darsia.utils.linear_solvers"):
+            continue
+        for k in mod.classes.values():
+            f = k.methods.get("update_params")
+            if f is None:
+                continue
+            ctx.consult(mn)
+            params = f.params[1:]
+            stored = {}
+            for st in ast.walk(f.node):
+                if isinstance(st, ast.Assign) and len(st.targets) == 1 and self_attr(st.targets[0]) in params:
+                    stored.setdefault(self_attr(st.targets[0]), []).append(st)
+            for p in params:
+                for st in stored.get(p, []):
+                    n += 1
+                    ctx.instance(R)
+                    conds = []
+                    cur = st
+                    while cur is not None and cur is not f.node:
+                        par = getattr(cur, "_parent", None)
+                        if isinstance(par, (ast.If, ast.While)):
+                            conds.append(par.test)
+                        cur = par
+                    foreign = sorted({x.id for c in conds for x in ast.walk(c) if isinstance(x, ast.Name) and x.id in params and x.id != p})
+                    v = st.value
+                    own_form = norm(v) in (p, f"{p} if {p} is not None else self.{p}", f"self.{p} if {p} is None else {p}")
+                    ctx.ob(R, f.qname, f"self.{p} is updated whenever `{p}` is given", own_form and not foreign,
+                           f"`{norm(st)[:70]}` is guarded by tests on {foreign}: update_params({p}=...) alone leaves the previous value in place" if foreign else norm(st)[:90], st)
+            # forwarding overrides
+            for c in ast.walk(f.node):
+                if isinstance(c, ast.Call) and isinstance(c.func, ast.Attribute) and c.func.attr == "update_params":
+                    n += 1
+                    ctx.instance(R)
+                    args = [norm(a) for a in c.args] + [f"{kw.arg}={norm(kw.value)}" for kw in c.keywords]
+                    ok = [norm(a) for a in c.args] == params[:len(c.args)] and all(kw.arg == norm(kw.value) for kw in c.keywords) and len(c.args) + len(c.keywords) == len(params)
+                    ctx.ob(R, f.qname, f"`{norm(c.func)}` receives every parameter in its own position", ok, str(args), c)
+    ctx.floor(R, 5)
+
+
 def run(ctx):
     rule_a(ctx)
     rule_b(ctx)
@@ -363,3 +412,4 @@ def run(ctx):
     rule_d(ctx)
     rule_e(ctx)
     rule_f(ctx)
+    rule_g(ctx)
